@@ -1,9 +1,13 @@
 (* Property C02 — compiled conv / pool / mixed network = eval-mode model.
-   Level of this file: a VERIFIED VALIDATOR applied to the parsed emitted text of every sampled model (translation validation
-   whose checker is proved sound for all inputs and all word sizes), composed with the proved wrapper and host. *)
+   Two layers:
+   (a) the generator model Model/GenNet.gen_net (what get_c_code() emits for Conv (Conv|Pool)* [Flatten Dense*], 2-D and 3-D) is
+       proved correct for EVERY well-formed network, every word size and every input (C02_logic_net, C02_net_counts,
+       C02_net_direct); the harness ties gen_net to the real emitter by syntactic equality with the parsed emitted text;
+   (b) a VERIFIED VALIDATOR applied to the parsed emitted text of every sampled model (sound for all inputs and word sizes),
+       which does not depend on the generator model at all. *)
 From Coq Require Import String ZArith List Bool Arith.
-From TLX Require Import Model.Bits Model.CLang Model.Netlist Model.ConvNet Model.Wrapper Model.Validate.
-From TLX Require Import Proofs.CLangFacts Proofs.ValidateFacts Proofs.WrapperFacts Proofs.HostFacts Proofs.C02Facts Proofs.C04Facts.
+From TLX Require Import Model.Bits Model.CLang Model.Netlist Model.ConvNet Model.Wrapper Model.Host Model.Validate Model.GenNet.
+From TLX Require Import Proofs.CLangFacts Proofs.ValidateFacts Proofs.WrapperFacts Proofs.HostFacts Proofs.C02Facts Proofs.C04Facts Proofs.GenNetFacts.
 From TLX Require Import Gen.GateCode.
 Import ListNotations.
 Local Open Scope Z_scope.
@@ -30,6 +34,55 @@ Theorem C02_counts : forall (W in_size n_out k : nat) p (net : list layer),
     = Some (map (per_row n_out k (eval_net net)) rows).
 Proof. exact validated_counts. Qed.
 
+(* (a) logic_net generated for ANY well-formed stack Conv (Conv|Pool)* [Flatten Dense*] (2-D or 3-D, any channel counts, image
+   sizes, receptive fields, strides, paddings, tree depths incl. 0, wirings, gates, pooling geometry whose windows all meet the image),
+   ANY word size W > 0, ANY input words: no out-of-bounds access, no read of an unwritten cell, and every bit lane j < W of the
+   output is the reference circuit (Model/ConvNet.v: zero padding, shared kernel trees, OR pooling, dense layers) on lane j *)
+Theorem C02_logic_net : forall W m inp,
+  0 < W -> wf_spatial_model m = true -> length inp = net_in m ->
+  exists out, execZ W (gen_net m) inp = Some out /\ length out = net_out m /\
+    forall j, 0 <= j < W -> map (lane j) out = eval_model m (map (lane j) inp).
+Proof. exact gen_net_correct_words. Qed.
+
+(* eval_model is the layer-list reference model used by C11/C12 *)
+Theorem C02_reference : forall m x, eval_net (net_layers m) x = eval_model m x.
+Proof. exact net_layers_eval. Qed.
+
+(* with wrapper and host (GroupSum): for every batch size, row r of the result = per-class counts of the circuit on row r *)
+Theorem C02_net_counts : forall (W k : nat) m rows,
+  (1 < W)%nat -> wf_spatial_model m = true -> Z.of_nat (gsize (net_out m) k) < 2 ^ 31 ->
+  Forall (fun r => length r = net_in m) rows ->
+  forward_with_groupsum W (net_in m) (net_out m) k (execZ (Z.of_nat W) (gen_net m)) rows
+  = Some (map (per_row (net_out m) k (eval_model m)) rows).
+Proof. exact net_counts. Qed.
+
+(* without GroupSum *)
+Theorem C02_net_direct : forall (W : nat) m rows,
+  (1 < W)%nat -> wf_spatial_model m = true -> Forall (fun r => length r = net_in m) rows ->
+  forward_direct (execZ (Z.of_nat W) (gen_net m)) rows = Some (map (fun r => map Z.b2z (eval_model m r)) rows).
+Proof. exact net_direct. Qed.
+
+(* non-vacuity: conv (padding 1, stride 2, depth 1) -> pool (padding 1, overhanging windows) -> flatten -> dense x2 *)
+Definition C02_example_model : spatial_model :=
+  {| sm_C := 1; sm_dims := [3; 2]%nat;
+     sm_spatial :=
+       [LConv {| cv_dims := [3; 2]; cv_C := 1; cv_K := 2; cv_depth := 1; cv_rf := [2; 2]; cv_stride := 1; cv_pad := 1;
+                 cv_rel_a := [[([0; 0], 0); ([1; 1], 0)]; [([0; 1], 0); ([1; 0], 0)]];
+                 cv_rel_b := [[([1; 0], 0); ([0; 1], 0)]; [([1; 1], 0); ([0; 0], 0)]];
+                 cv_gates := [[[6; 14]; [1; 7]]; [[7; 9]]] |}%nat;
+        LPool {| pl_dims := [4; 3]; pl_C := 2; pl_kernel := 2; pl_stride := 2; pl_pad := 1 |}%nat];
+     sm_flat := true;
+     sm_dense := [[(0, 5, 6); (11, 2, 6); (3, 3, 12)]; [(0, 1, 6); (2, 0, 9)]]%nat |}.
+Example C02_example :
+  wf_spatial_model C02_example_model = true /\
+  execZ 8 (gen_net C02_example_model) [1; -2; 3; 100; -128; 77] = Some [1; 50] /\
+  map (lane 4) [1; 50] = eval_model C02_example_model (map (lane 4) [1; -2; 3; 100; -128; 77]).
+Proof. split; [|split]; vm_compute; reflexivity. Qed.
+
 Eval compute in "PA:C02_validator_sound"%string. Print Assumptions C02_validator_sound.
 Eval compute in "PA:C02_gate_templates"%string. Print Assumptions C02_gate_templates.
 Eval compute in "PA:C02_counts"%string. Print Assumptions C02_counts.
+Eval compute in "PA:C02_logic_net"%string. Print Assumptions C02_logic_net.
+Eval compute in "PA:C02_reference"%string. Print Assumptions C02_reference.
+Eval compute in "PA:C02_net_counts"%string. Print Assumptions C02_net_counts.
+Eval compute in "PA:C02_net_direct"%string. Print Assumptions C02_net_direct.
